@@ -591,9 +591,20 @@ def mon_c11(tr):
     cfg = 1
     seen = collections.defaultdict(list)     # registration index -> [(kind, ok)]
     regreq = {}       # registration index -> RequestId of the lock command the record was pushed for (harness note)
+    ids_sent = set()  # RequestIds of the request lines so far
     for i, st in enumerate(tr.steps):
         kind = st["line"].split()[0]
         f = st["line"].split()
+        if st["req"]:
+            # root cause: the ack tables are keyed by RequestId alone -- an ack-lock request re-using the RequestId of an
+            # ack-lock whose acknowledgement is still pending is refused at registration and its UNLOCK record then
+            # drops the OTHER request's registration (and frees its own lock under the timeout wheel)
+            q = st["req"]["req"]
+            if q in ids_sent and st["req"]["islock"] and st["req"]["tflag"] & 0x1000 and \
+                    any(h["req"] == q and h["ack"] != 255 for k in st["before"]["keys"].values() for h in live_holders(k)) and \
+                    any(n and n[0] == "reg" and int(n[2]) == q for n in st.get("notes", [])):
+                out.append(("ack:request-id-registered-twice", "ack-lock request re-uses RequestId %d while the ack-lock that owns it is still waiting for its acknowledgement: registration refused, and the refused lock's UNLOCK record drops the first request's registration" % q, i))
+            ids_sent.add(q)
         if kind == "ackcfg":
             cfg = int(f[1])
         if kind == "ack":
